@@ -70,6 +70,10 @@ claimed = {
          "Decides the soundness structure of proof verification: both VerifyProof implementations recompute each node's hash from its content and compare it with the expected hash before interpreting the node or returning a result, a missing node is an error, the range verifier cuts the side opposite to the boundary proof that points into a fork edge, and the storage-proof RPC (v8/v9/v10) proves and reports roots from one state view after the supported-block check. Completeness (honest proofs verify), absence-proof divergence cases and hash correctness are value-level and not decided.",
          "trusted: go/types, go/ssa; Node.Hash implementations are assumed to hash the node's content",
          "DESIGN.md §5 C10"),
+ "C07": ("go/types struct-shape comparison (effective CBOR keys with promotion, type identity up to one pointer level) between projections and stored structs; SSA value identity of mapped results; interface-implementer vs registry cross-check; per-bucket codec-family agreement from resolved bucket attribution",
+         "Decides that every partial-decoding projection agrees with the struct it projects (keys, types, complete key set), that projections are mapped one-to-one and from the fields they claim, that the raw block blob is copied before it leaves the database callback, that every Transaction/ClassDefinition/TrieNode implementation is registered exactly once, that index slices are paired with their own blob section, and that per bucket the Put encoder and Get decoder families agree. Round-trip identity of values, offsets inside the blob and nil-vs-empty are not decided.",
+         "trusted: go/types, go/ssa; fxamacker/cbor's key derivation is modelled (tag name, else field name; shallower embedded fields win)",
+         "DESIGN.md §5 C07"),
 }
 pending = {}  # id -> reason (properties not claimed)
 props = [json.loads(l) for l in open(os.path.join(V, "properties.jsonl"))]
